@@ -6,6 +6,7 @@ the interleaving.
 from concurrent.futures import Future
 
 from .env import ERR_CLASSES, ScriptedError, sub_of, desc
+from sim.core import _scrub
 
 LAYER_TYPES = ["map", "flat_map", "retry", "poll", "throttle", "timeout", "cos"]
 
@@ -114,8 +115,8 @@ class Fns(object):
             if b == "reraise":
                 raise ex
             if b == "raise":
-                raise env.exc(("err", i, getattr(ex, "tag", str(ex))))
-            return ("e", i, getattr(ex, "tag", str(ex)))
+                raise env.exc(("err", i, getattr(ex, "tag", _scrub(str(ex)))))
+            return ("e", i, getattr(ex, "tag", _scrub(str(ex))))
         return fn
 
     def flat_fn(self, layer):
@@ -148,7 +149,7 @@ class Fns(object):
             env.rec("ufn", "flaterr", i, desc(ex), b)
             if b == "reraise":
                 raise ex
-            return f_return(("fe", i, getattr(ex, "tag", str(ex))))
+            return f_return(("fe", i, getattr(ex, "tag", _scrub(str(ex)))))
         return fn
 
     def poll_fn(self, layer):
